@@ -16,6 +16,9 @@ mod p08;
 mod p09;
 mod p10;
 mod p11;
+mod p12;
+mod p13;
+mod p14;
 mod csg;
 
 use engine::*;
@@ -35,6 +38,9 @@ macro_rules! for_prop {
             "C09" => $f::<p09::P>($($arg),*),
             "C10" => $f::<p10::P>($($arg),*),
             "C11" => $f::<p11::P>($($arg),*),
+            "C12" => $f::<p12::P>($($arg),*),
+            "C13" => $f::<p13::P>($($arg),*),
+            "C14" => $f::<p14::P>($($arg),*),
             other => {
                 eprintln!("unknown property {other}");
                 std::process::exit(2)
